@@ -2,6 +2,7 @@ package props
 
 import (
 	"fmt"
+	"strings"
 	"sync"
 
 	"github.com/orda-io/orda/client/pkg/model"
@@ -283,9 +284,27 @@ func runC08(c *core.Case) *core.Result {
 	c.Count("faults_"+kind, 1)
 	c.Count("fault_at_"+run.faultHit.Name+"_"+run.faultHit.Coll, 1)
 	// recovery: all clients retry to quiescence
+	// requests of the script that were sent after the faulted request had returned: the
+	// database answers every command again (for sever kinds a new incarnation is up)
+	{
+		faultStep := -1
+		fmt.Sscanf(run.faultHit.Window, "step%d:", &faultStep)
+		for _, o := range run.outcomes {
+			var st int
+			var rest string
+			if n, _ := fmt.Sscanf(o, "step%d:%s", &st, &rest); n == 2 && st > faultStep && !strings.HasSuffix(rest, "=ok") {
+				c.Count("error_replies_in_script_after_fault", 1)
+				c.Step("after the fault: %s", o)
+			}
+		}
+	}
+	errsBefore := w.errPacks + w.rpcErrs
 	ok, sig, msg := w.settle(6)
 	if sig != "" {
 		return verdict(c, where, sig, msg)
+	}
+	if n := w.errPacks + w.rpcErrs - errsBefore; n > 0 {
+		c.Count("error_replies_during_fault_free_retries", int64(n))
 	}
 	if !ok {
 		return c.Violation(where+"no-recovery", "after the fault (%s, outcomes %v) six rounds of retries by all clients do not reach quiescence: some sync keeps failing or something is always left to push or pull", run.faultHit.Key(), run.outcomes)
